@@ -96,7 +96,8 @@ class C07(Property):
         n = 60 if tier == 'quick' else 2000
         for _ in range(n):
             yield {'gen_seed': rng.randrange(10 ** 9), 'op_seed': rng.randrange(10 ** 9),
-                   'opts': dict({'safe_indices': rng.random() < 0.6, 'n_comps': (1, 3)},
+                   'opts': dict({'safe_indices': rng.random() < 0.6, 'n_comps': (1, 3),
+                                 'scalar0d': rng.random() < 0.4},
                                 **({'dyn_sibling': True, 'auto_ivc_p': 0.5}
                                    if rng.random() < 0.4 else {}))}
 
@@ -130,9 +131,12 @@ class C07(Property):
             autos = [x for x in tg if x['kind'].startswith('auto_ivc')]
             if md.get('dyn_sibling') and autos and rng.random() < 0.5:
                 t = rng.choice(autos)
+            zeros = [x for x in tg if len(x['src_shape']) == 0 and x['units'] and x['kind'] == 'output']
+            if zeros and phase > 0 and rng.random() < 0.5:
+                t = rng.choice(zeros)       # 0-d sources with units, once the vectors exist
             shape = t['shape']
             zero_d = bool(t['chain']) and gm.np_positions(t['src_shape'], t['chain'])[1] == []
-            if rng.random() < 0.35 or zero_d:
+            if rng.random() < 0.35 or zero_d or len(shape) == 0:
                 # (an input whose src_indices chain ends in a scalar selection is addressed whole)
                 idx = None
                 sel_shape = shape
@@ -144,7 +148,8 @@ class C07(Property):
                     sel_shape = shape
                 else:
                     sel_shape = list(np.shape(a))
-            units = gm.compatible_units(rng, t['units']) if t['units'] and rng.random() < 0.5 else None
+            units = gm.compatible_units(rng, t['units']) if t['units'] and \
+                rng.random() < (0.85 if len(t['src_shape']) == 0 else 0.5) else None
             nsel = int(np.prod(sel_shape)) if len(sel_shape) else 1
             if rng.random() < 0.3:
                 vals = [rat(Fraction(rng.randint(-40, 40), 4))]       # scalar broadcast
@@ -275,8 +280,16 @@ class C07(Property):
         return None
 
     def signature(self, case, impl, failure):
-        return {'what': failure.get('what'), 'phase': failure.get('phase'),
-                'target_kind': failure.get('target_kind')}
+        sig = {'what': failure.get('what'), 'phase': failure.get('phase'),
+               'target_kind': failure.get('target_kind')}
+        op = failure.get('op') or {}
+        if op.get('op') == 'set' and op.get('indices') is not None:
+            md = self._md(case)
+            tg = targets_of(md)
+            t = tg[op['target']] if op.get('target') is not None and op['target'] < len(tg) else None
+            # a (1,)-shaped input fed by a 0-d source, addressed with indices
+            sig['src_0d_indexed'] = bool(t is not None and len(t['src_shape']) == 0)
+        return sig
 
     def nontrivial(self, case, impl):
         md = self._md(case)
